@@ -54,6 +54,7 @@ def variants(r, tier):
   # reset (at most every MIN_RESET_INTERVAL seconds); only meaningful with statistics ticks in the sequence
   for k, v in enumerate(out):
     v['namecache'] = (k % 3 == 1)          # CACHE_METRIC_NAMES_MAX / _TTL as suggested in carbon.conf.example
+    v['framelimit'] = (60 if k % 3 == 2 else 2 ** 20)     # PICKLE_RECEIVER_MAX_LENGTH as set on this daemon (its own listener's limit)
     v['ratio'] = (k % 4 == 3)
     v['reset_interval'] = [0, 121][k % 2]
   return out
@@ -68,6 +69,7 @@ def apply_variant(settings, v, router='constant', rf=1):
   settings['REPLICATION_FACTOR'] = rf
   settings['DIVERSE_REPLICAS'] = False
   settings['USE_RATIO_RESET'] = bool(v.get('ratio'))
+  settings['PICKLE_RECEIVER_MAX_LENGTH'] = v.get('framelimit', 2 ** 20)
   settings['CACHE_METRIC_NAMES_MAX'] = 1000 if v.get('namecache') else 0
   settings['CACHE_METRIC_NAMES_TTL'] = 600 if (v.get('namecache') and v.get('ratio')) else 0
   settings['MIN_RESET_STAT_FLOW'] = 1 if v.get('ratio') else 1000
